@@ -348,12 +348,18 @@ impl Ctx<'_> {
         let (shape, nontrivial) = tuple_shape("print-canonical", parts);
         self.r.eval(shape, nontrivial);
         self.r.hit("print-canonical");
-        match guard(|| (v.to_string(), format!("{v:?}"), format!("{v}"))) {
+        // every printing route: Display / to_string / Debug, their alternate forms (`{:#}`, `{:#?}` — what
+        // `dbg!` and pretty-printed containers use), width / fill flags, nested in an Option
+        match guard(|| (v.to_string(), format!("{v:?}"), format!("{v}"), format!("{v:#}"), format!("{v:#?}"), format!("{:#?}", Some(v)), format!("{v:>1}"))) {
             Err(p) => self.panicked("print-canonical", p, replay()),
-            Ok((d1, dbg, d2)) => {
+            Ok((d1, dbg, d2, alt, pdbg, nested, padded)) => {
                 if d1 != want || dbg != want || d2 != want {
                     self.viol("print-canonical", "print-canonical".into(),
                         format!("Version::from({a:?}): to_string = {d1:?}, Debug = {dbg:?}, Display = {d2:?}, expected {want:?}"), replay());
+                }
+                if alt != want || pdbg != want || !nested.contains(want.as_str()) || padded != want {
+                    self.viol("print-canonical", "print-canonical alternate-route".into(),
+                        format!("Version::from({a:?}): {{:#}} = {alt:?}, {{:#?}} = {pdbg:?}, Some(v) {{:#?}} = {nested:?}, {{:>1}} = {padded:?}, expected {want:?} on every route"), replay());
                 }
             }
         }
